@@ -377,6 +377,11 @@ def r04_4(ctx):
                 rv = st["rv"]
                 if rv["k"] == "aggregate" and rv["agg"].get("variant") == "Err":
                     continue
+                if rv["k"] == "aggregate" and rv["agg"].get("variant") == "Ok":
+                    # `run_internal().map_err(..)` spelled as a match: Ok is rebuilt only on the Ok edge of run_internal's result
+                    ok_e = enum_edges(run, lib, "std::result::Result", lambda vs: vs == {"Ok"}, src_pred=lambda c: has_call(c.src, ROLE["txtpp_run_internal"]))
+                    if ok_e and C.guarded(run, bb, ok_e):
+                        continue
                 lv = C.trace(run, rv["op"]) if rv["k"] == "use" else []
                 if not lv or not all(leaf_is_call(l, ROLE["txtpp_run_internal"]) for l in lv):
                     good = False
